@@ -30,12 +30,15 @@ open StepModel.Generated in
 theorem typeMismatch_iff (x : Val) (e : Ty) : typeMismatch x e ↔ ¬ (conforms x.ty e = true) := by
   unfold typeMismatch; rw [checkType_iff]
 
-/-- for every base type but NUMBER conformance is equality of types -/
-theorem conforms_eq_iff (t b : Ty) (hb : b ≠ .simple 5) : conforms t b = true ↔ t = b := by
-  unfold conforms
-  split
-  · exact absurd rfl hb
-  · simp
+/-- for every base type but NUMBER and SELECTs conformance is equality of types -/
+theorem conforms_eq_iff (t b : Ty) (hb : plainBase b = true) : conforms t b = true ↔ t = b := by
+  cases b with
+  | simple n =>
+    simp only [plainBase, Bool.and_eq_true, bne_iff_ne, ne_eq, decide_eq_true_eq] at hb
+    have h5 : ¬ n = 5 := hb.1
+    have h100 : ¬ n ≥ 100 := by omega
+    simp [conforms, h5, h100]
+  | agg k c => simp [conforms]
 
 /-! ### Python list primitives on in-range arguments -/
 
